@@ -283,3 +283,53 @@ Example C14_nonvacuous_checkpoint :
 Proof.
   eexists. split; [vm_compute; reflexivity|]. split; [reflexivity|]. split; [vm_compute; reflexivity|]. split; vm_compute; reflexivity.
 Qed.
+
+(* ==================================================================================================================
+   Phase 4: the idempotence hypothesis holds BY CONSTRUCTION for the bookkeeping model of C05 (Model/Accum.v): the resume
+   theorems are unconditional for every driver whose state is (refinement structure, accumulators)
+   ================================================================================================================== *)
+From SG Require Import Model.Accum Proofs.DriverAccum.
+
+(* area strategies (extend-split, cell) since repair 0b63da8: evaluating marks nothing new, a second evaluation adds nothing *)
+Theorem C14_evaluate_new_idempotent : forall (V : Type) (vzero : V) (vadd : V -> V -> V) (vopp : V -> V) parts s,
+  evaluate_new V vzero vadd vopp true parts (evaluate_new V vzero vadd vopp true parts s) = evaluate_new V vzero vadd vopp true parts s.
+Proof. exact evaluate_new_idempotent. Qed.
+(* dimension-wise: every evaluation resets and recomputes *)
+Theorem C14_evaluate_dw_idempotent : forall (V : Type) (vzero : V) (vadd : V -> V -> V) (vopp : V -> V) xs s,
+  evaluate_dw V vzero vadd vopp xs (evaluate_dw V vzero vadd vopp xs s) = evaluate_dw V vzero vadd vopp xs s.
+Proof. exact evaluate_dw_idempotent. Qed.
+
+(* no hypothesis left: for every accumulator group, refinement structure, refine step, component contributions, observation *)
+Theorem C14_extend_split_resume_unconditional :
+  forall (V : Type) (vzero : V) (vadd : V -> V -> V) (vopp : V -> V) (Rf : Type) (parts : Rf -> Z -> list V)
+         (next : Rf * astate V -> Rf) (removed added : Rf * astate V -> list Z) (observe : Rf * astate V -> obs)
+         legs lf s d s' d',
+  legs <> [] -> last (map fst legs) lf = lf -> all_growb (map fst legs) lf = true ->
+  run_legs _ (es_evaluate V vzero vadd vopp Rf parts) (es_refine V vzero vadd vopp Rf next removed added) observe legs s d = Some (s', d') ->
+  run _ (es_evaluate V vzero vadd vopp Rf parts) (es_refine V vzero vadd vopp Rf next removed added) observe lf (legs_fuel legs) s = Some s'.
+Proof. intros V z a o Rf parts next rem add ob. exact (es_legs_grow_end_where_single_run_ends V z a o Rf parts next rem add ob). Qed.
+Theorem C14_dimension_wise_resume_unconditional :
+  forall (V : Type) (vzero : V) (vadd : V -> V -> V) (vopp : V -> V) (Rf : Type) (contribs : Rf -> list V)
+         (next : Rf * astate V -> Rf) (observe : Rf * astate V -> obs) legs lf s d s' d',
+  legs <> [] -> last (map fst legs) lf = lf -> all_growb (map fst legs) lf = true ->
+  run_legs _ (dw_evaluate V vzero vadd vopp Rf contribs) (dw_refine V Rf next) observe legs s d = Some (s', d') ->
+  run _ (dw_evaluate V vzero vadd vopp Rf contribs) (dw_refine V Rf next) observe lf (legs_fuel legs) s = Some s'.
+Proof. intros V z a o Rf contribs next ob. exact (dw_legs_grow_end_where_single_run_ends V z a o Rf contribs next ob). Qed.
+Print Assumptions C14_extend_split_resume_unconditional.
+Print Assumptions C14_dimension_wise_resume_unconditional.
+
+(* non-vacuity: accumulators over Z; two areas, the structure is a refinement counter; area i contributes [i; 1];
+   stop at 1 refinement, continue to 3: the state of the single run (and the accumulated total is the sum of the parts) *)
+Example C14_nonvacuous_accum :
+  let ev := es_evaluate Z 0 Z.add Z.opp nat (fun k id => [id * Z.of_nat (S k); 1]) in
+  let rf := es_refine Z 0 Z.add Z.opp nat (fun x => S (fst x)) (fun x => [Z.of_nat (fst x)]) (fun x => [Z.of_nat (fst x) + 10]) in
+  let ob := fun x : nat * astate Z => mkObs 0%Qc 0%Qc (Z.of_nat (fst x)) in
+  let l1 := mkLimits (Q2Qc (-1 # 1)) 1 (Some 0) in
+  let l2 := mkLimits (Q2Qc (-1 # 1)) 1 (Some 2) in
+  let s0 := (0%nat, a_init Z 0 [0; 1]) in
+  exists s1 s2, run _ ev rf ob l1 9 s0 = Some s1 /\ fst s1 = 1%nat /\ run _ ev rf ob l2 9 s1 = Some s2 /\
+                run _ ev rf ob l2 9 s0 = Some s2 /\ fst s2 = 3%nat /\ st_new (snd s2) = [] /\ st_total (snd s2) = st_cont (snd s2).
+Proof.
+  eexists. eexists. split; [vm_compute; reflexivity|]. split; [reflexivity|]. split; [vm_compute; reflexivity|].
+  split; [vm_compute; reflexivity|]. split; [reflexivity|]. split; reflexivity.
+Qed.
